@@ -7,7 +7,7 @@ LEVEL = 'exploration'
 WALL_CAP = {'quick': 300, 'thorough': 3000}
 RUNS = {'quick': 6000, 'thorough': 80000}
 RULE = ('one run = a model (sample, synthesised graph of any block type x version, API-built model, or empty Create(version)) + 3..25 steps of AddBlock (populated instance of '
-        'any of the 304 registered types, its serialised references pointed at existing blocks), DeleteBlock, ReplaceBlock, SetBlockOrder (seeded permutation), '
+        'any of the 304 registered types, its serialised references pointed at existing blocks), DeleteBlock (by index, or through a reference stored in another block: the NiRef overload as the library\'s own helpers call it), ReplaceBlock, SetBlockOrder (seeded permutation), '
         'DeleteBlockByType (all / orphaned only), DeleteUnreferencedBlocks, restart. After every step the header accessors are compared with an executable model of an '
         'indexed object graph (identity = block address): block count, block at every index, every enumerated reference designates the same block or is empty iff its '
         'target was deleted, no block twice, no empty slot, header type name of every block. At restarts and at the end the saved file is checked by the independent reader '
@@ -16,7 +16,7 @@ RULE = ('one run = a model (sample, synthesised graph of any block type x versio
         'distinct (initial state, effective step trace).')
 ASSUMPTIONS = ['only valid ids and permutations are issued (API preconditions)', 'geometry-data blocks cached by a NiGeometry are not deleted/replaced through the header (dangling cache inside one model: not this property)',
                'references of an added block are those its Get serialises in the model\'s version; others stay empty', 'pruning is not issued while the model has unknown blocks']
-EXPECTED_PROBES = ['op_add', 'op_delete', 'op_replace', 'op_reorder', 'op_delete_by_type', 'op_delete_by_type_orphaned', 'op_prune', 'deleted_referenced_block', 'op_replace_same_type']
+EXPECTED_PROBES = ['op_add', 'op_delete', 'op_replace', 'op_reorder', 'op_delete_by_type', 'op_delete_by_type_orphaned', 'op_prune', 'deleted_referenced_block', 'op_replace_same_type', 'op_delete_via_stored_ref']
 
 
 def gen_plan(seed, i, tier):
@@ -48,6 +48,9 @@ def gen_plan(seed, i, tier):
             st.update({'type': rng.below(100000), 'seed': rng.below(1 << 20), 'wire': rng.below(1 << 20)})
             if op == 'ReplaceBlock' and rng.chance(0.35):
                 st['same_type'] = True
+        elif op == 'DeleteBlock':
+            if rng.chance(0.5):
+                st.update({'via_ref': True, 'pick': rng.below(1 << 16)})
         elif op == 'SetBlockOrder':
             st.update({'salt': rng.below(1 << 30), 'keep_root': rng.chance(0.7)})
         elif op == 'DeleteByType':
